@@ -87,6 +87,10 @@ def check_run(r, cfg):
             seq = [e[0] for e in EV if e[0] in (b_, a_)]
             if seq != [b_, a_] * (len(seq) // 2) or len(seq) % 2:
                 raise V_(fnm, f"C13 before-{what} hook exactly once before each accepted {what} (normal and high-frequency agents alike), after-{what} hook right after it", seq[:12])
+        early = [e for e in EV if e[0] == "h_bo" and (e[2] is not None or e[3] is not None)]
+        if early:
+            raise V_("Simulator._trigger_event_before_order", "C13 the before-order hook fires BEFORE the order is accepted (it may still rewrite the order): the order has no acceptance time or id yet",
+                     dict(placed_at=early[0][2], order_id=early[0][3]))
         if collections.Counter(id(e[1]) for e in EV if e[0] == "h_ac") != collections.Counter(id(l) for l in cans):
             raise V_("Simulator._trigger_event_after_cancel", "C13 after-cancel hook exactly once per accepted cancel")
         if collections.Counter(id(e[1]) for e in EV if e[0] == "h_ae") != collections.Counter(id(l) for l in fills):
